@@ -917,8 +917,8 @@ func ruleMergeCloseOnce(c *Ctx, r *R) {
 	for _, g := range bi.all {
 		instrs(g, func(_ *ssa.BasicBlock, _ int, y ssa.Instruction) {
 			if cc, ok := y.(*ssa.Call); ok {
-				if f := cc.Call.StaticCallee(); f != nil && f.Name() == "CompareAndSwapUint32" {
-					onceKey = varKey(cc.Call.Args[0])
+				if nm, args, _, ok := atomicOp(cc); ok && nm == "CompareAndSwapUint32" && varKey(args[0]) != "" {
+					onceKey = varKey(args[0])
 				}
 			}
 		})
@@ -943,18 +943,26 @@ func ruleMergeCloseOnce(c *Ctx, r *R) {
 			for _, gd := range guardsOf(b) {
 				if v, val := gd.boolVal(); val {
 					if cc, ok := v.(*ssa.Call); ok {
-						if f := cc.Call.StaticCallee(); f != nil && f.Name() == "CompareAndSwapUint32" && isConstInt(cc.Call.Args[1], 0) && isConstInt(cc.Call.Args[2], 1) {
+						if nm, args, ne0, ok := atomicOp(cc); ok && !ne0 && nm == "CompareAndSwapUint32" && isConstInt(args[1], 0) && isConstInt(args[2], 1) {
 							casOK = true
+						}
+					}
+				}
+				// !closeOnce.isSet(): the accessor answers Load != 0
+				if v, val := gd.boolVal(); !val {
+					if cc, ok := v.(*ssa.Call); ok {
+						if nm, args, ne0, ok := atomicOp(cc); ok && ne0 && nm == "LoadUint32" && onceKey != "" && varKey(args[0]) == onceKey {
+							onceZero = true
 						}
 					}
 				}
 				if cf, ok := gd.asCmp(); ok && cf.op == token.EQL {
 					// last one out: atomic.AddUint32(&counter, 1) == len(in)
 					if ac, ok := resolveVal(cf.x).(*ssa.Call); ok {
-						if f := ac.Call.StaticCallee(); f != nil && f.Name() == "AddUint32" && isConstInt(ac.Call.Args[1], 1) && lenOfInputs(cf.y, bi.fn) {
+						if nm, args, ne0, ok := atomicOp(ac); ok && !ne0 && nm == "AddUint32" && isConstInt(args[1], 1) && lenOfInputs(cf.y, bi.fn) {
 							lastOut = true
 						}
-						if f := ac.Call.StaticCallee(); f != nil && f.Name() == "LoadUint32" && isConstInt(cf.y, 0) && onceKey != "" && varKey(ac.Call.Args[0]) == onceKey {
+						if nm, args, ne0, ok := atomicOp(ac); ok && !ne0 && nm == "LoadUint32" && isConstInt(cf.y, 0) && onceKey != "" && varKey(args[0]) == onceKey {
 							onceZero = true
 						}
 					}
